@@ -225,6 +225,7 @@ def run_config(cfg):
                 obs['notes'].append(repr(ex)[:200])
             if cons is not None:
                 obs['ssl'] = cons.is_ssl_connection
+                obs['got_metadata'] = cons.host_description is not None     # then the hosted services were addressed
                 if cons._http_server is not None:
                     obs['cons_server_tls'] = bool(cons._http_server._ssl_context)
                     if cons._http_server.server_port is not None:
@@ -545,7 +546,7 @@ def model_lines(obs):
     if ok == '0' and obs.get('init_ssl') is None and obs.get('ssl') is None and obs['start'] not in ('ok', 'SSLError'):
         ok = 'x'
     evs = f'c{ok}'
-    if any(a[0] == 'hostedEpr' for a in obs['addresses']):
+    if obs.get('got_metadata'):
         evs += ' g1' if prov_alt else ' g0'     # the hosted services are addressed by ip, the device by the x-addr
     if obs.get('alias_client'):
         evs += ' g0' if prov_alt else ' g2'     # the alias name is the x-addr's netloc when the provider advertises it
